@@ -895,4 +895,370 @@ theorem invL_run {st st' : St} {tr : List Step} (hs : Gate.run st tr = some st')
     · cases hs
 
 
+
+/-- While publisher `p` is inside `update_data`, no step other than its own `pubEnd` changes its
+    sequence number or its snapshot, and it stays inside. -/
+theorem keep_step {st st' : St} {x : Step} {p : Pub} (hs : step st x = some st')
+    (hsend : (st.pubs p).sending.isSome = true) (hx : x ≠ .pubEnd p) :
+    (st'.pubs p).seq = (st.pubs p).seq ∧ (st'.pubs p).snap = (st.pubs p).snap ∧
+    (st'.pubs p).sending.isSome = true := by
+  cases x with
+  | pubBegin p' =>
+    simp only [step] at hs
+    split at hs
+    · rename_i hc
+      cases hs
+      by_cases e : p = p'
+      · subst e; simp_all
+      · simp [e, hsend]
+    · cases hs
+  | pubDeliver p' s =>
+    simp only [step] at hs
+    split at hs
+    · cases hs
+    · split at hs
+      · split at hs
+        · split at hs
+          · split at hs
+            · cases hs
+              by_cases e : p = p' <;> simp_all
+            · cases hs
+          · cases hs
+            by_cases e : p = p' <;> simp_all
+        · cases hs
+          by_cases e : p = p' <;> simp_all
+      · cases hs
+  | pubEnd p' =>
+    have e : p ≠ p' := fun e => hx (by rw [e])
+    simp only [step] at hs
+    split at hs
+    · cases hs; simp [e, hsend]
+    · cases hs
+  | _ =>
+    have f := frameB_step hs (by intros; intro e; cases e) (by intros; intro e; cases e) (by intros; intro e; cases e)
+    exact ⟨f.seq p, f.snap p, by rw [f.sending p]; exact hsend⟩
+
+theorem keep_run {st st' : St} {tr : List Step} {p : Pub} (hs : Gate.run st tr = some st')
+    (hsend : (st.pubs p).sending.isSome = true) (hx : ∀ x ∈ tr, x ≠ .pubEnd p) :
+    (st'.pubs p).seq = (st.pubs p).seq ∧ (st'.pubs p).snap = (st.pubs p).snap ∧
+    (st'.pubs p).sending.isSome = true := by
+  induction tr generalizing st with
+  | nil => simp only [Gate.run] at hs; cases hs; exact ⟨rfl, rfl, hsend⟩
+  | cons x xs ih =>
+    simp only [Gate.run] at hs
+    split at hs
+    · rename_i st1 h1
+      obtain ⟨a, b, c⟩ := keep_step h1 hsend (hx x List.mem_cons_self)
+      obtain ⟨a', b', c'⟩ := ih hs c (fun y hy => hx y (List.mem_cons_of_mem _ hy))
+      exact ⟨a'.trans a, b'.trans b, c'⟩
+    · cases hs
+
+theorem run_append {st : St} {t1 t2 : List Step} :
+    Gate.run st (t1 ++ t2) = (Gate.run st t1).bind (fun s => Gate.run s t2) := by
+  induction t1 generalizing st with
+  | nil => simp [Gate.run]
+  | cons x xs ih =>
+    simp only [List.cons_append, Gate.run]
+    split
+    · exact ih
+    · simp
+
+/-! ### Termination bookkeeping -/
+
+structure InvT (st : St) : Prop where
+  term : st.rootTerminated = true → ∀ c, c ≠ 0 → (st.pubs c).attached = true → (st.pubs c).alive = true →
+    Cmd.terminate ∈ (st.pubs c).cmdq ∨ (st.pubs c).terminated = true
+
+theorem invT_init (cap : Nat) : InvT (init cap) := ⟨by simp [init]⟩
+
+theorem invT_same {st st' : St} (h : InvT st) (hr : st'.rootTerminated = st.rootTerminated)
+    (hp : ∀ c, (st'.pubs c).attached = (st.pubs c).attached ∧ (st'.pubs c).alive = (st.pubs c).alive ∧
+      (st'.pubs c).cmdq = (st.pubs c).cmdq ∧ (st'.pubs c).terminated = (st.pubs c).terminated) :
+    st'.rootTerminated = true → ∀ c, c ≠ 0 → (st'.pubs c).attached = true → (st'.pubs c).alive = true →
+    Cmd.terminate ∈ (st'.pubs c).cmdq ∨ (st'.pubs c).terminated = true := by
+  intro ht c hc ha hal
+  obtain ⟨a, b, c', d⟩ := hp c
+  rw [a] at ha; rw [b] at hal; rw [c', d]; rw [hr] at ht
+  exact h.term ht c hc ha hal
+
+theorem invT_step {st st' : St} {x : Step} (hs : step st x = some st') (h : InvT st) : InvT st' := by
+  constructor
+  cases x with
+  | rootProc =>
+    simp only [step] at hs
+    split at hs
+    · cases hs
+    · rename_i hg
+      split at hs
+      · cases hs
+      · rename_i x q hq
+        cases hs
+        have hnt : st.rootTerminated = false := by
+          cases e : st.rootTerminated <;> simp_all
+        cases x with
+        | terminate =>
+          intro _ c _ ha hal
+          simp only [rootHandle, notify_attached, notify_alive] at ha hal ⊢
+          left; rw [notify_cmdq]; simp [ha, hal]
+        | subscribe s b => simp only [rootHandle]; split <;> simp [hnt]
+        | unsubscribe s => simp [rootHandle, hnt]
+        | suspension s b => cases b <;> (simp only [rootHandle]; split <;> simp [hnt])
+        | attach c => simp [rootHandle, hnt]
+        | detach c => simp [rootHandle, hnt]
+        | followSub s => simp [rootHandle, hnt]
+        | followUnsub s => simp [rootHandle, hnt]
+  | rootRespond =>
+    simp only [step] at hs
+    split at hs
+    · cases hs
+    · split at hs
+      · cases hs; split <;> exact h.term
+      · cases hs
+        intro ht c hc ha hal
+        simp only [notify_attached, notify_alive, notify_terminated] at ha hal ⊢
+        rcases h.term ht c hc ha hal with g | g
+        · left; rw [notify_cmdq]; split
+          · exact List.mem_append_left _ g
+          · exact g
+        · exact Or.inr g
+  | cloneProc c =>
+    simp only [step] at hs
+    split at hs
+    · split at hs
+      · cases hs
+      · rename_i hg x q hq
+        cases hs
+        have key : ∀ c', c' ≠ 0 → ((upd st.pubs c { st.pubs c with cmdq := q }) c').attached = true →
+            ((upd st.pubs c { st.pubs c with cmdq := q }) c').alive = true → st.rootTerminated = true → x ≠ .terminate →
+            Cmd.terminate ∈ ((upd st.pubs c { st.pubs c with cmdq := q }) c').cmdq ∨
+            ((upd st.pubs c { st.pubs c with cmdq := q }) c').terminated = true := by
+          intro c' hc' ha hal ht hx
+          simp only [upd_apply] at ha hal ⊢
+          split
+          · rename_i e; subst e
+            simp only [if_true] at ha hal
+            rcases h.term ht c' hc' ha hal with g | g
+            · rw [hq] at g
+              simp only [List.mem_cons] at g
+              rcases g with g | g
+              · exact absurd g.symm hx
+              · exact Or.inl g
+            · exact Or.inr g
+          · rename_i e
+            simp only [e, if_false] at ha hal
+            exact h.term ht c' hc' ha hal
+        cases x with
+        | terminate =>
+          intro ht c' hc' ha hal
+          simp only [cloneHandle, upd_apply] at ha hal ⊢
+          split
+          · simp
+          · rename_i e
+            simp only [e, if_false] at ha hal
+            exact h.term ht c' hc' ha hal
+        | followSub s => intro ht c' hc' ha hal; exact key c' hc' ha hal ht (by simp)
+        | followUnsub s => intro ht c' hc' ha hal; exact key c' hc' ha hal ht (by simp)
+        | subscribe s b => intro ht c' hc' ha hal; exact key c' hc' ha hal ht (by simp)
+        | unsubscribe s => intro ht c' hc' ha hal; exact key c' hc' ha hal ht (by simp)
+        | suspension s b => intro ht c' hc' ha hal; exact key c' hc' ha hal ht (by simp)
+        | attach s => intro ht c' hc' ha hal; exact key c' hc' ha hal ht (by simp)
+        | detach s => intro ht c' hc' ha hal; exact key c' hc' ha hal ht (by simp)
+    · cases hs
+  | pubBegin p =>
+    simp only [step] at hs
+    split at hs
+    · cases hs
+      refine invT_same h rfl ?_
+      intro c; simp only [upd_apply]; split <;> simp_all
+    · cases hs
+  | pubDeliver p s =>
+    simp only [step] at hs
+    split at hs
+    · cases hs
+    · split at hs
+      · split at hs
+        · split at hs
+          · split at hs
+            · cases hs
+              refine invT_same h rfl ?_
+              intro c; simp only [upd_apply]; split <;> simp_all
+            · cases hs
+          · cases hs
+            refine invT_same h rfl ?_
+            intro c; simp only [upd_apply]; split <;> simp_all
+        · cases hs
+          refine invT_same h rfl ?_
+          intro c; simp only [upd_apply]; split <;> simp_all
+      · cases hs
+  | pubEnd p =>
+    simp only [step] at hs
+    split at hs
+    · cases hs
+      refine invT_same h rfl ?_
+      intro c; simp only [upd_apply]; split <;> simp_all
+    · cases hs
+  | linkSubscribe s k b =>
+    simp only [step] at hs
+    split at hs
+    · cases hs; simpa using h.term
+    · cases hs
+  | linkCancel s =>
+    simp only [step] at hs
+    split at hs
+    · cases hs; exact h.term
+    · cases hs
+  | linkSuspend s b =>
+    simp only [step] at hs
+    split at hs
+    · cases hs; simpa using h.term
+    · cases hs
+  | linkDisconnect s =>
+    simp only [step] at hs
+    split at hs
+    · cases hs; simpa using h.term
+    · cases hs
+  | linkClose s =>
+    simp only [step] at hs
+    split at hs
+    · cases hs; exact h.term
+    · cases hs
+  | linkRecv s =>
+    simp only [step] at hs
+    split at hs
+    · cases hs; exact h.term
+    · cases hs
+  | linkGone s =>
+    simp only [step] at hs
+    split at hs
+    · cases hs; exact h.term
+    · cases hs
+  | agentTerminate =>
+    simp only [step] at hs
+    cases hs; simpa using h.term
+  | rootDrop =>
+    simp only [step] at hs
+    split at hs
+    · cases hs
+      intro ht c hc ha hal
+      simp only [upd_apply, hc, if_false] at ha hal ⊢
+      exact h.term ht c hc ha hal
+    · cases hs
+  | cloneNew c =>
+    simp only [step] at hs
+    split at hs
+    · cases hs
+      intro ht c' hc ha hal
+      simp only [send_rootTerminated, upd_apply] at ht ha hal ⊢
+      split
+      · rename_i e; simp [e] at ha
+      · rename_i e; simp only [e, if_false] at ha hal; exact h.term ht c' hc ha hal
+    · cases hs
+  | cloneClosed c =>
+    simp only [step] at hs
+    split at hs
+    · cases hs
+      intro ht c' hc ha hal
+      simp only [upd_apply] at ha hal ⊢
+      split
+      · simp
+      · rename_i e; simp only [e, if_false] at ha hal; exact h.term ht c' hc ha hal
+    · cases hs
+  | cloneDrop c =>
+    simp only [step] at hs
+    split at hs
+    · cases hs
+      intro ht c' hc ha hal
+      simp only [send_rootTerminated, upd_apply] at ht ha hal ⊢
+      split
+      · rename_i e; simp [e] at hal
+      · rename_i e; simp only [e, if_false] at ha hal; exact h.term ht c' hc ha hal
+    · cases hs
+
+
+
+theorem cloneHandle_pubs {st : St} {c : Pub} {x : Cmd} (hx : x ≠ .terminate) : (cloneHandle st c x).pubs = st.pubs := by
+  cases x <;> simp_all [cloneHandle]
+
+theorem cloneHandle_rootDropped (st : St) (c : Pub) (x : Cmd) : (cloneHandle st c x).rootDropped = st.rootDropped := by
+  cases x <;> simp [cloneHandle]
+
+/-- The state after a clone took `x` off its queue (leaving `q`) and handled it. -/
+def afterPop (st : St) (c : Pub) (x : Cmd) (q : List Cmd) : St :=
+  cloneHandle { st with pubs := upd st.pubs c { st.pubs c with cmdq := q } } c x
+
+theorem cloneProc_enabled {st : St} {c : Pub} {x : Cmd} {q : List Cmd} (hc : c ≠ 0)
+    (hal : (st.pubs c).alive = true) (hnt : (st.pubs c).terminated = false) (hq : (st.pubs c).cmdq = x :: q) :
+    step st (.cloneProc c) = some (afterPop st c x q) := by
+  simp [step, hc, hal, hnt, hq, afterPop]
+
+/-- A clone with `Terminate` in its command queue reaches `Err(Terminated)` by its own `process()`
+    steps alone, after at most as many commands as are queued. -/
+theorem clone_reaches_terminate {c : Pub} (hc : c ≠ 0) : ∀ (q : List Cmd) (st : St),
+    (st.pubs c).cmdq = q → (st.pubs c).alive = true → (st.pubs c).terminated = false → Cmd.terminate ∈ q →
+    ∃ n st', n ≤ q.length ∧ Gate.run st (List.replicate n (.cloneProc c)) = some st' ∧
+      (st'.pubs c).terminated = true := by
+  intro q
+  induction q with
+  | nil => intro st _ _ _ hm; simp at hm
+  | cons x q ih =>
+    intro st hq hal hnt hm
+    have hstep := cloneProc_enabled hc hal hnt hq
+    by_cases hx : x = .terminate
+    · subst hx
+      refine ⟨1, afterPop st c .terminate q, by simp, ?_, ?_⟩
+      · simp only [List.replicate, Gate.run, hstep]
+      · simp [afterPop, cloneHandle]
+    · have hm' : Cmd.terminate ∈ q := by
+        simp only [List.mem_cons] at hm
+        rcases hm with hm | hm
+        · exact absurd hm.symm hx
+        · exact hm
+      obtain ⟨n, st', hn, hrun, ht⟩ := ih (afterPop st c x q)
+        (by simp only [afterPop]; rw [cloneHandle_pubs hx]; simp) (by simp only [afterPop]; rw [cloneHandle_pubs hx]; simp [hal]) (by simp only [afterPop]; rw [cloneHandle_pubs hx]; simp [hnt]) hm'
+      refine ⟨n + 1, st', by simp; omega, ?_, ht⟩
+      simp only [List.replicate, Gate.run, hstep]
+      exact hrun
+
+/-- After the root gate has been dropped every clone reaches `Err(Terminated)` by its own
+    `process()` steps alone: it works off its queue and then finds its command channel closed. -/
+theorem clone_reaches_closed {c : Pub} (hc : c ≠ 0) : ∀ (q : List Cmd) (st : St),
+    (st.pubs c).cmdq = q → (st.pubs c).alive = true → (st.pubs c).terminated = false → st.rootDropped = true →
+    ∃ tr st', tr.length ≤ q.length + 1 ∧ (∀ x ∈ tr, x = .cloneProc c ∨ x = .cloneClosed c) ∧
+      Gate.run st tr = some st' ∧ (st'.pubs c).terminated = true := by
+  intro q
+  induction q with
+  | nil =>
+    intro st hq hal hnt hd
+    refine ⟨[.cloneClosed c], { st with pubs := upd st.pubs c { st.pubs c with terminated := true } }, by simp, by simp, ?_, by simp⟩
+    simp [Gate.run, step, hc, hal, hnt, hq, hd]
+  | cons x q ih =>
+    intro st hq hal hnt hd
+    have hstep := cloneProc_enabled hc hal hnt hq
+    by_cases hx : x = .terminate
+    · subst hx
+      refine ⟨[.cloneProc c], afterPop st c .terminate q, by simp, by simp, ?_, ?_⟩
+      · simp only [Gate.run, hstep]
+      · simp [afterPop, cloneHandle]
+    · obtain ⟨tr, st', hn, hall, hrun, ht⟩ := ih (afterPop st c x q)
+        (by simp only [afterPop]; rw [cloneHandle_pubs hx]; simp) (by simp only [afterPop]; rw [cloneHandle_pubs hx]; simp [hal]) (by simp only [afterPop]; rw [cloneHandle_pubs hx]; simp [hnt])
+        (by simp only [afterPop]; rw [cloneHandle_rootDropped]; exact hd)
+      refine ⟨.cloneProc c :: tr, st', by simp; omega, ?_, ?_, ht⟩
+      · intro y hy
+        simp only [List.mem_cons] at hy
+        rcases hy with hy | hy
+        · exact Or.inl hy
+        · exact hall y hy
+      · simp only [Gate.run, hstep]; exact hrun
+
+
+
+theorem invT_run {st st' : St} {tr : List Step} (hs : Gate.run st tr = some st') (h : InvT st) : InvT st' := by
+  induction tr generalizing st with
+  | nil => simp only [Gate.run] at hs; cases hs; exact h
+  | cons x xs ih =>
+    simp only [Gate.run] at hs
+    split at hs
+    · rename_i st1 h1; exact ih hs (invT_step h1 h)
+    · cases hs
+
 end Rotonda.Gate
